@@ -37,7 +37,7 @@ Qed.
 
 Theorem document_names_ok : forall o v, names_ok (document o v).
 Proof.
-  intros o v. unfold names_ok, document. cbn [names_okb forallb].
+  intros o v. unfold names_ok, document, head_of. cbn [names_okb forallb].
   change (is_raw_tag s_style_tag) with true. rewrite style_body_no_lt.
   assert (H := tree_view_names_ok o v). unfold names_ok in H. rewrite H. reflexivity.
 Qed.
@@ -56,13 +56,13 @@ Proof.
   destruct (wfb_vocab _ (tv_wfb o v (o_css o) (o_summary_color o) (o_name o) (o_root_path o) (o_collapse o) (o_include o) (o_exclude o))) as (H1 & H2 & H3).
   fold (tree_view o v) in H1, H2, H3.
   assert (T : incl (tags_of (document o v)) (document_tags ++ vocabulary_tags)).
-  { unfold document, tags_of. cbn [collect flat_map app]. rewrite app_nil_r.
+  { unfold document, head_of, tags_of. cbn [collect flat_map app]. rewrite app_nil_r.
     intros x Hx. destruct Hx as [<-|[<-|[<-|[<-|Hx]]]]; try (cbn; tauto).
     apply in_or_app. right. apply H1. rewrite ?app_nil_r in Hx. exact Hx. }
   assert (O : incl (optnames_of (document o v)) vocabulary_opts).
-  { unfold document, optnames_of. cbn [collect flat_map app]. rewrite ?app_nil_r. exact H2. }
+  { unfold document, head_of, optnames_of. cbn [collect flat_map app]. rewrite ?app_nil_r. exact H2. }
   assert (A : incl (attrnames_of (document o v)) vocabulary_attrs).
-  { unfold document, attrnames_of. cbn [collect flat_map app map]. rewrite ?app_nil_r. exact H3. }
+  { unfold document, head_of, attrnames_of. cbn [collect flat_map app map]. rewrite ?app_nil_r. exact H3. }
   repeat split; intros x Hx.
   - apply T. assert (E := collect_normalize (fun tag _ _ => [tag]) [document o v]).
     cbn [flat_map] in E. rewrite app_nil_r in E. unfold tags_of. rewrite <- E. apply in_flat_map. eauto.
@@ -75,4 +75,38 @@ Qed.
 (* the texts of the document are those of the content plus the wrapper's newlines: nothing of the value is in the head *)
 Theorem document_texts : forall o v,
   texts_of (document o v) = [[c_nl]; [c_nl]; [c_nl]; [c_nl]; [c_nl]] ++ texts_of (tree_view o v) ++ [[c_nl]; [c_nl]].
-Proof. intros o v. unfold document. cbn [texts_of flat_map app]. rewrite ?app_nil_r. now rewrite <- app_assoc. Qed.
+Proof. intros o v. unfold document, head_of. cbn [texts_of flat_map app]. rewrite ?app_nil_r. now rewrite <- app_assoc. Qed.
+
+(* ------------------------------------------------------------------------------------------ *)
+(* the head does not depend on the data: values of the same shape get the same style block       *)
+Lemma needs_summary_shape : forall o name a b, same_shape a b -> needs_summary o name a = needs_summary o name b.
+Proof.
+  intros o name a b H. destruct H as [lk tn cn raw rep fmt tn' cn' raw' rep' fmt' Hl|]; [|reflexivity].
+  unfold needs_summary. now rewrite Hl.
+Qed.
+
+Lemma tvs_shape : forall o a b, same_shape a b -> forall name incl excl, tvs o name incl excl a = tvs o name incl excl b.
+Proof.
+  intros o. induction a as [lk tn cn raw rep fmt|sq tn cn fmt items IH] using pv_ind'; intros b H name incl excl.
+  - assert (E := needs_summary_shape o name _ _ H). inv H. cbn [tvs]. now rewrite E.
+  - assert (E := needs_summary_shape o name _ _ H). inv H. cbn [tvs]. rewrite E.
+    match goal with Hf : Forall2 _ items items' |- _ => rename Hf into HF end.
+    assert (Ek : map fst items = map fst items').
+    { clear -HF. induction HF as [|x y l l' [Hxy _] _ IHl]; [reflexivity|]. cbn [map]. now rewrite Hxy, IHl. }
+    assert (Er : forall label : bool,
+               map (fun kc : key * pv => (fst kc, if label then key_styles o ++ tvs o None None None (snd kc) else tvs o (Some (fst kc)) None None (snd kc))) items
+             = map (fun kc : key * pv => (fst kc, if label then key_styles o ++ tvs o None None None (snd kc) else tvs o (Some (fst kc)) None None (snd kc))) items').
+    { intros label. clear -HF IH. induction HF as [|x y l l' [Hxy Hs] _ IHl]; [reflexivity|].
+      inv IH. cbn [map]. rewrite IHl by assumption. rewrite Hxy.
+      match goal with Hx : forall b, same_shape (snd x) b -> _ |- _ => rewrite !(Hx _ Hs) end. reflexivity. }
+    rewrite Ek, Er. reflexivity.
+Qed.
+
+Theorem head_data_independent : forall o a b, same_shape a b -> head_of o a = head_of o b.
+Proof. intros o a b H. unfold head_of, styles_of. now rewrite (tvs_shape o a b H). Qed.
+
+(* a non-trivial instance: a hostile and a harmless value of the same shape *)
+Example same_shape_example :
+  same_shape (PNode false s_k s_k [] [(KStr s_k_i, PLeaf LStr s_k s_k s_k_i s_k_i s_k_i)])
+             (PNode false s_i s_i s_k [(KStr s_k_i, PLeaf LStr s_i s_i [65; 66; 67; 68] s_k s_i)]).
+Proof. repeat constructor. Qed.
